@@ -60,7 +60,7 @@ type c07Sig struct {
 }
 
 type c07Op struct {
-	Kind  string   `json:"k"` // vote | delegate | undelegate | stake | unstake | denoms | reimport | end
+	Kind  string   `json:"k"` // vote | delegate | undelegate | stake | unstake | denoms | fparams | reimport | end
 	Voter int      `json:"voter,omitempty"`
 	Sigs  []c07Sig `json:"sigs,omitempty"`
 	Wrap  int      `json:"wrap,omitempty"`  // 0 plain; 3: {2^63-1, 2^63-1, 2+t}; 4: {2^62, 2^62, 2^62, 2^62+t}  (int64 sum == t)
@@ -76,8 +76,13 @@ type c07Op struct {
 	Denom   int     `json:"denom,omitempty"` // 0 uband, 1 ualt
 	Amt     *c07Num `json:"amt,omitempty"`
 	Set     int     `json:"set,omitempty"` // denoms: index into c07DenomSets (new x/restake AllowedDenoms, through governance)
-	N       int     `json:"n,omitempty"`   // end: number of blocks
-	Dt      int     `json:"dt,omitempty"`  // end: seconds per block
+	// fparams: one x/feeds parameter changed through governance. Par in maxfeeds|thr|minint|maxint|updint; the new
+	// value is PV, or (PRel) the value in force + PV.
+	Par  string `json:"par,omitempty"`
+	PV   int64  `json:"pv,omitempty"`
+	PRel bool   `json:"prel,omitempty"`
+	N    int    `json:"n,omitempty"`  // end: number of blocks
+	Dt   int    `json:"dt,omitempty"` // end: seconds per block
 }
 
 type c07Case struct {
@@ -339,9 +344,130 @@ func genC07(rt *rapid.T) c07Case {
 		}
 	}
 
+	genFeedsParams := func() {
+		o := c07Op{Kind: "fparams"}
+		switch gen.Pick(rt, "fpk", 6, 2, 1, 1, 2) {
+		case 0:
+			o.Par = "maxfeeds"
+			switch gen.Pick(rt, "fpmf", 1, 2, 2, 2, 2, 2) {
+			case 0:
+				o.PV = 0
+			case 1:
+				o.PV = 1
+			case 2:
+				o.PV = 2
+			case 3:
+				o.PV, o.PRel = -1, true
+			case 4:
+				o.PV, o.PRel = 1, true
+			default:
+				o.PV = 5
+			}
+		case 1:
+			o.Par = "thr"
+			if c.Rich {
+				o.PV = gen.OneOf[int64](rt, "fpthr", 1, 1_000_000, 1<<60, 1<<62)
+			} else {
+				o.PV = gen.OneOf[int64](rt, "fpthr", 1, 2, 3, 5, 10, 1000, 1_000_000)
+			}
+		case 2:
+			o.Par, o.PV = "minint", gen.OneOf[int64](rt, "fpmin", 1, 2, 10, 60)
+		case 3:
+			o.Par, o.PV = "maxint", gen.OneOf[int64](rt, "fpmax", 1, 7, 60, 100, 3600)
+		default:
+			o.Par, o.PV = "updint", int64(gen.Range(rt, "fpupd", 1, 5))
+		}
+		c.Ops = append(c.Ops, o)
+	}
+
+	// constructed scenario 3: votes establish (at least) two eligible signals, governance lowers MaxCurrentFeeds to 0
+	// or 1, the chain runs across an update block (optionally through a genesis re-import), a vote is tried under the
+	// lowered maximum, then the maximum is raised again and another update block passes.
+	genScenarioFeedsParams := func() {
+		v1 := gen.Uniform(rt, "sfv1", c.NVoters)
+		v2 := (v1 + 1) % c.NVoters
+		id1 := gen.Uniform(rt, "sfid", c.K)
+		id2 := (id1 + 1) % c.K
+		for _, vv := range []int{v1, v2} {
+			amt := &c07Num{K: "thr", V: int64(gen.Range(rt, "sfamt", 2, 6))}
+			if c.Rich {
+				if !altNow {
+					denomsOp(1)
+				}
+				c.Ops = append(c.Ops, c07Op{Kind: "stake", Voter: vv, Denom: 1, Amt: amt})
+			} else {
+				c.Ops = append(c.Ops, c07Op{Kind: "delegate", Voter: vv, Val: gen.Uniform(rt, "sfval", c.NVals), Amt: amt})
+			}
+		}
+		c.Ops = append(c.Ops, c07Op{Kind: "end", N: 1, Dt: 1})
+		c.Ops = append(c.Ops, c07Op{Kind: "vote", Voter: v1, Sigs: []c07Sig{{ID: id1, P: c07Num{K: "thr", V: int64(gen.Range(rt, "sfp1", 1, 2))}}}})
+		c.Ops = append(c.Ops, c07Op{Kind: "vote", Voter: v2, Sigs: []c07Sig{{ID: id2, P: c07Num{K: "thr", V: int64(gen.Range(rt, "sfp2", 1, 2)), D: gen.OneOf[int64](rt, "sfd2", 0, 0, 1)}}}})
+		c.Ops = append(c.Ops, c07Op{Kind: "end", N: gen.Range(rt, "sfn0", 1, 5), Dt: 1})
+		c.Ops = append(c.Ops, c07Op{Kind: "fparams", Par: "maxfeeds", PV: gen.OneOf[int64](rt, "sflow", 0, 0, 0, 1, 1)})
+		if gen.Chance(rt, "sfreimp0", 1, 5) {
+			c.Ops = append(c.Ops, c07Op{Kind: "reimport"}) // the import recomputes the list under the lowered maximum
+		}
+		c.Ops = append(c.Ops, c07Op{Kind: "end", N: 5, Dt: 1}) // crosses an update block whatever the interval (<= 5)
+		if gen.Chance(rt, "sfreimp1", 1, 4) {
+			c.Ops = append(c.Ops, c07Op{Kind: "reimport"})
+		}
+		if gen.Chance(rt, "sfvote", 1, 2) {
+			c.Ops = append(c.Ops, c07Op{Kind: "vote", Voter: v1, Sigs: []c07Sig{{ID: id1, P: c07Num{K: "thr", V: 1}}, {ID: id2, P: c07Num{K: "abs", V: 1}}}})
+			c.Ops = append(c.Ops, c07Op{Kind: "end", N: 1, Dt: 1})
+		}
+		if gen.Chance(rt, "sfrel", 1, 2) {
+			c.Ops = append(c.Ops, c07Op{Kind: "fparams", Par: "maxfeeds", PV: 1, PRel: true})
+		} else {
+			c.Ops = append(c.Ops, c07Op{Kind: "fparams", Par: "maxfeeds", PV: gen.OneOf[int64](rt, "sfhigh", 2, 5, int64(c.MaxFeeds))})
+		}
+		c.Ops = append(c.Ops, c07Op{Kind: "end", N: 5, Dt: 1})
+	}
+
+	// constructed scenario 4 (rich voters): a lock of 2^63 or more. Stake about 2^63 of the 18-decimals token, vote
+	// with individually valid int64 powers whose true sum equals the power (>= 2^63, fits the 8-byte index key only
+	// as an unsigned number), then try to withdraw below the lock.
+	genScenarioHugeLock := func() {
+		voter := gen.Uniform(rt, "shvoter", c.NVoters)
+		if !altNow {
+			denomsOp(1)
+		}
+		c.Ops = append(c.Ops, c07Op{Kind: "stake", Voter: voter, Denom: 1, Amt: &c07Num{K: "p63", D: gen.OneOf[int64](rt, "shd", 0, 0, 1, 2, -1)}})
+		if gen.Chance(rt, "shmore", 1, 3) {
+			c.Ops = append(c.Ops, c07Op{Kind: "stake", Voter: voter, Denom: 1, Amt: &c07Num{K: "p62", D: int64(gen.Range(rt, "shd2", -1, 1))}})
+		}
+		c.Ops = append(c.Ops, c07Op{Kind: "end", N: 1, Dt: 1})
+		vote := c07Op{Kind: "vote", Voter: voter}
+		start := gen.Uniform(rt, "shstart", c.K)
+		last := c07Num{K: "rem", D: gen.OneOf[int64](rt, "shrem", 0, 0, -1)}
+		if c.MaxFeeds >= 3 && c.K >= 3 && gen.Chance(rt, "sh3", 1, 2) {
+			vote.Sigs = []c07Sig{{ID: start, P: c07Num{K: "abs", V: 1 << 62}}, {ID: (start + 1) % c.K, P: c07Num{K: "abs", V: 1 << 62}}, {ID: (start + 2) % c.K, P: last}}
+		} else {
+			vote.Sigs = []c07Sig{{ID: start, P: c07Num{K: "abs", V: 1<<63 - 1}}, {ID: (start + 1) % c.K, P: last}}
+		}
+		c.Ops = append(c.Ops, vote)
+		c.Ops = append(c.Ops, c07Op{Kind: "end", N: 1, Dt: 1})
+		if gen.Chance(rt, "shreimp", 1, 5) {
+			c.Ops = append(c.Ops, c07Op{Kind: "reimport"})
+		}
+		amt := gen.OneOf(rt, "shamt", &c07Num{K: "edge", D: 1}, &c07Num{K: "edge", D: 1}, &c07Num{K: "all"}, &c07Num{K: "abs", V: 1}, &c07Num{K: "edge", D: 0})
+		c.Ops = append(c.Ops, c07Op{Kind: "unstake", Voter: voter, Denom: 1, Amt: amt})
+		c.Ops = append(c.Ops, c07Op{Kind: "end", N: 1, Dt: 1})
+	}
+
 	genScenario := func() {
-		if gen.Chance(rt, "scdenoms", 2, 5) {
+		wHuge := 0
+		if c.Rich && c.MaxFeeds >= 2 && !c.NoWrap {
+			wHuge = 6
+		}
+		switch gen.Pick(rt, "sckind", 3, 2, 2, wHuge) {
+		case 1:
 			genScenarioDenoms()
+			return
+		case 2:
+			genScenarioFeedsParams()
+			return
+		case 3:
+			genScenarioHugeLock()
 			return
 		}
 		voter := gen.Uniform(rt, "scvoter", c.NVoters)
@@ -453,10 +579,13 @@ func genC07(rt *rapid.T) c07Case {
 				}
 			}
 			c.Ops = append(c.Ops, o)
-		case w < 89:
+		case w < 88:
 			isTx = false
 			genDenoms()
-		case w < 92:
+		case w < 91:
+			isTx = false
+			genFeedsParams()
+		case w < 94:
 			// genesis export -> new application instance initialised from the exported document
 			isTx = false
 			c.Ops = append(c.Ops, c07Op{Kind: "reimport"})
@@ -548,6 +677,9 @@ func refCurrentFeeds(totals map[string]*big.Int, threshold, minI, maxI int64, ma
 			eligible++
 		}
 	}
+	if maxFeeds <= 0 {
+		return nil, eligible, false // "at most the configured maximum": none
+	}
 	if len(all) > maxFeeds {
 		if all[maxFeeds-1].p.Cmp(all[maxFeeds].p) == 0 && all[maxFeeds].p.Cmp(bi(threshold)) >= 0 {
 			tieAtCut = true
@@ -562,6 +694,12 @@ func refCurrentFeeds(totals map[string]*big.Int, threshold, minI, maxI int64, ma
 		feeds = append(feeds, c07Feed{ID: r.id, Power: r.p.Int64(), Interval: iv.Int64()})
 	}
 	return
+}
+
+// c07Params: the feeds parameters the statement refers to, as currently in force.
+type c07Params struct {
+	Thr, MinI, MaxI  int64
+	MaxFeeds, UpdInt int
 }
 
 type c07Model struct {
@@ -675,7 +813,10 @@ func runC07(c c07Case) *pbt.Verdict {
 		m.standing = append(m.standing, nil)
 		m.voted = append(m.voted, false)
 	}
-	thr := bi(c.Threshold)
+	// feeds params in force (changed mid-history by "fparams" ops through governance)
+	cur := &c07Params{Thr: c.Threshold, MinI: c.MinInterval, MaxI: c.MaxInterval, MaxFeeds: c.MaxFeeds, UpdInt: c.UpdateInterval}
+	fpChain := fp                                             // the full Params message the next MsgUpdateParams starts from
+	lastUpdate := int64(1) - int64(1)%int64(c.UpdateInterval) // sim.New has committed block 1
 
 	// statistics for classes / non-triviality
 	var (
@@ -699,8 +840,14 @@ func runC07(c c07Case) *pbt.Verdict {
 		acceptedAfterReimport, rejectedOverAfterReimport, withdrawRejAfterReimport, updateAfterReimport int
 		lastUpdateUnasserted                                                                            int
 	)
-	justReimported := false    // the block under check is the first block of a re-imported application
-	lastUpdateUnknown := false // since a re-import no update block has passed: CurrentFeeds.LastUpdateBlock is whatever InitGenesis wrote
+	// feeds params changed through governance
+	var (
+		feedsParamsChanged, maxFeedsLoweredBelowEligible, maxFeedsRaised, thresholdChanged, updIntChanged    int
+		maxFeeds0AtUpdate, maxFeeds0AtUpdateWithEligible, voteRefusedOverCurrentMax, voteAcceptedAfterParams int
+	)
+	var hugeLockObs, withdrawRejHugeLock int // locks of 2^63 or more
+	justReimported := false                  // the block under check is the first block of a re-imported application
+	lastUpdateUnknown := false               // since a re-import no update block has passed: CurrentFeeds.LastUpdateBlock is whatever InitGenesis wrote
 	sanitySig := "C07/harness-power-model"
 	lastSame := make([]bool, c.NVoters) // the voter\'s latest accepted vote was a re-vote with an unchanged total (> 0)
 
@@ -710,7 +857,7 @@ func runC07(c c07Case) *pbt.Verdict {
 		case "abs":
 			return bi(n.V)
 		case "thr":
-			return add(new(big.Int).Mul(thr, bi(n.V)), bi(n.D))
+			return add(new(big.Int).Mul(bi(cur.Thr), bi(n.V)), bi(n.D))
 		case "rem":
 			return add(sub(pw, used), bi(n.D))
 		case "frac":
@@ -777,8 +924,8 @@ func runC07(c c07Case) *pbt.Verdict {
 				if n > c.K {
 					n = c.K
 				}
-				if n > c.MaxFeeds {
-					n = c.MaxFeeds
+				if n > cur.MaxFeeds {
+					n = cur.MaxFeeds
 				}
 				base := o.Base
 				if base < 0 {
@@ -842,6 +989,11 @@ func runC07(c c07Case) *pbt.Verdict {
 				used.Add(used, p)
 			}
 			sigs = append(sigs, c07Signal{ID: c07IDs[id%c.K], P: p.Int64()})
+		}
+		// late binding to a lowered maximum (otherwise almost every later vote would be refused as too large); one
+		// in four keeps its size
+		if feedsParamsChanged > 0 && cur.MaxFeeds >= 1 && len(sigs) > cur.MaxFeeds && len(sigs) <= c.MaxFeeds && (voter+len(sigs))%4 != 0 {
+			sigs = sigs[:cur.MaxFeeds]
 		}
 		return sigs
 	}
@@ -976,6 +1128,9 @@ func runC07(c c07Case) *pbt.Verdict {
 				voteTotals[s.ID].Add(voteTotals[s.ID], bi(s.Power))
 			}
 			want := m.lock(i)
+			if want.Cmp(c07P63) >= 0 {
+				hugeLockObs++
+			}
 			lk, found := rk.GetLock(ctx, addr, feedstypes.ModuleName)
 			switch {
 			case !found && (m.voted[i] || want.Sign() != 0):
@@ -1141,7 +1296,7 @@ func runC07(c c07Case) *pbt.Verdict {
 		}
 
 		// (c) current feeds
-		isUpdate := height%int64(c.UpdateInterval) == 0
+		isUpdate := height%int64(cur.UpdInt) == 0
 		cf := fk.GetCurrentFeeds(ctx)
 		feedsEqual := func(got []feedstypes.Feed, exp []c07Feed) bool {
 			set := map[string]feedstypes.Feed{}
@@ -1160,28 +1315,35 @@ func runC07(c c07Case) *pbt.Verdict {
 		}
 		if isUpdate {
 			lastUpdateUnknown = false
+			lastUpdate = height
 			if reimports > 0 {
 				updateAfterReimport++
 			}
 			var eligible int
 			var tie bool
-			expFeeds, eligible, tie = refCurrentFeeds(modelTotals, c.Threshold, c.MinInterval, c.MaxInterval, c.MaxFeeds)
+			expFeeds, eligible, tie = refCurrentFeeds(modelTotals, cur.Thr, cur.MinI, cur.MaxI, cur.MaxFeeds)
 			if len(expFeeds) > 0 {
 				updateWithFeeds++
 			}
-			if eligible > c.MaxFeeds {
+			if eligible > cur.MaxFeeds {
 				feedsCut++
+			}
+			if cur.MaxFeeds == 0 {
+				maxFeeds0AtUpdate++
+				if eligible > 0 {
+					maxFeeds0AtUpdateWithEligible++
+				}
 			}
 			if tie {
 				tieCut++
 			}
 			for _, f := range expFeeds {
-				if f.Power == c.Threshold {
+				if f.Power == cur.Thr {
 					thrEq++
 				}
-				if f.Interval == c.MinInterval && c.MaxInterval/(f.Power/c.Threshold) < c.MinInterval {
+				if f.Interval == cur.MinI && cur.MaxI/(f.Power/cur.Thr) < cur.MinI {
 					intervalMin++
-				} else if f.Power/c.Threshold > 1 {
+				} else if f.Power/cur.Thr > 1 {
 					intervalStep++
 				}
 			}
@@ -1195,7 +1357,7 @@ func runC07(c c07Case) *pbt.Verdict {
 			// carried-over list would satisfy the statement as well. Either is accepted (and from then on expected
 			// until the next update block); LastUpdateBlock/Timestamp are not asserted before that block.
 			lastUpdateUnknown = true
-			ref, _, _ := refCurrentFeeds(modelTotals, c.Threshold, c.MinInterval, c.MaxInterval, c.MaxFeeds)
+			ref, _, _ := refCurrentFeeds(modelTotals, cur.Thr, cur.MinI, cur.MaxI, cur.MaxFeeds)
 			switch {
 			case feedsEqual(cf.Feeds, ref):
 				if !feedsEqual(cf.Feeds, expFeeds) {
@@ -1209,8 +1371,8 @@ func runC07(c c07Case) *pbt.Verdict {
 			}
 		} else if lastUpdateUnknown {
 			lastUpdateUnasserted++
-		} else if want := height - height%int64(c.UpdateInterval); cf.LastUpdateBlock != want {
-			v.Failf("C07/feeds-not-updated", "height %d: CurrentFeeds last update block %d, want %d", height, cf.LastUpdateBlock, want)
+		} else if cf.LastUpdateBlock != lastUpdate {
+			v.Failf("C07/feeds-not-updated", "height %d: CurrentFeeds last update block %d, want %d (update interval %d)", height, cf.LastUpdateBlock, lastUpdate, cur.UpdInt)
 		}
 		gotSet := map[string]feedstypes.Feed{}
 		for _, f := range cf.Feeds {
@@ -1230,7 +1392,7 @@ func runC07(c c07Case) *pbt.Verdict {
 				tieOnly := true
 				minIn := (*big.Int)(nil)
 				for _, g := range cf.Feeds {
-					iv, el := refInterval(bi(g.Power), thr, bi(c.MinInterval), bi(c.MaxInterval))
+					iv, el := refInterval(bi(g.Power), bi(cur.Thr), bi(cur.MinI), bi(cur.MaxI))
 					if get(modelTotals, g.SignalID).Cmp(bi(g.Power)) != 0 || !el || iv.Cmp(bi(g.Interval)) != 0 {
 						tieOnly = false
 					}
@@ -1251,7 +1413,7 @@ func runC07(c c07Case) *pbt.Verdict {
 				sig = "C07/current-feeds-after-reimport"
 			}
 			v.Failf(sig, "height %d (update block: %v, first block after a genesis re-import: %v): CurrentFeeds %v, expected %v (threshold %d min %d max %d maxfeeds %d, totals %v)",
-				height, isUpdate, justReimported, cf.Feeds, expFeeds, c.Threshold, c.MinInterval, c.MaxInterval, c.MaxFeeds, modelTotals)
+				height, isUpdate, justReimported, cf.Feeds, expFeeds, cur.Thr, cur.MinI, cur.MaxI, cur.MaxFeeds, modelTotals)
 		} else {
 			for i, f := range expFeeds {
 				if cf.Feeds[i].SignalID != f.ID {
@@ -1320,8 +1482,20 @@ func runC07(c c07Case) *pbt.Verdict {
 				if len(ids) != len(t.sigs) {
 					dupVotes++
 				}
-				if len(t.sigs) > c.MaxFeeds {
+				if len(t.sigs) > cur.MaxFeeds {
 					tooMany++
+					if feedsParamsChanged > 0 && len(t.sigs) <= c.MaxFeeds {
+						// more signals than the maximum in force (fine under the genesis maximum); the statement bounds the
+						// feed list, not the vote: the outcome is only counted
+						if ok {
+							v.Count("vote_accepted_with_more_signals_than_current_max", 1)
+						} else {
+							voteRefusedOverCurrentMax++
+						}
+					}
+				}
+				if ok && feedsParamsChanged > 0 {
+					voteAcceptedAfterParams++
 				}
 				// region statistics: the voter's power is below its lock (after a denom was disallowed)
 				if isBelow := pw.Cmp(lock) < 0; isBelow {
@@ -1404,7 +1578,7 @@ func runC07(c c07Case) *pbt.Verdict {
 					switch {
 					case !vbOK:
 						v.Count("affordable_rejected_invalid_msg", 1)
-					case len(t.sigs) > c.MaxFeeds:
+					case len(t.sigs) > cur.MaxFeeds:
 						v.Count("affordable_rejected_too_many", 1)
 					case overflow:
 						totalOverflowRej++
@@ -1478,6 +1652,9 @@ func runC07(c c07Case) *pbt.Verdict {
 					}
 				} else if below && t.amt.Cmp(hold) <= 0 {
 					withdrawRej++
+					if lock.Cmp(c07P63) >= 0 {
+						withdrawRejHugeLock++
+					}
 					if reimports > 0 {
 						withdrawRejAfterReimport++
 					}
@@ -1505,15 +1682,15 @@ func runC07(c c07Case) *pbt.Verdict {
 	// runDenoms installs new restake AllowedDenoms through a real governance proposal (the same three steps as
 	// sim.GovExec: submit, all validators vote yes, voting period ends and the gov end blocker executes the message),
 	// every block going through the ordinary per-block judgement and state check.
-	runDenoms := func(set int) bool {
-		if set < 0 {
-			set = -set
-		}
-		names := c07DenomSets[set%len(c07DenomSets)]
+	// runGov puts one authority-only message through a real governance proposal (the same three steps as
+	// sim.GovExec: submit, all validators vote yes, voting period ends and the gov end blocker executes the message),
+	// every block going through the ordinary per-block judgement and state check. onPassed brings the model up to
+	// date; it runs after the txs of the executing block were judged and before that block's state check (the gov end
+	// blocker runs before the feeds end blocker, so an update block already works with the new values).
+	runGov := func(msg sdk.Msg, onPassed func()) bool {
 		if len(pend) > 0 && !flush(1) {
 			return false
 		}
-		msg := restaketypes.NewMsgUpdateParams(sim.GovAuthority(), restaketypes.NewParams(append([]string{}, names...)))
 		prop, err := govv1.NewMsgSubmitProposal([]sdk.Msg{msg}, sdk.NewCoins(sdk.NewInt64Coin("uband", 10)), ch.Vals[0].Addr.String(), "", "t", "s", false)
 		if err != nil {
 			v.Failf("C07/harness", "NewMsgSubmitProposal: %v", err)
@@ -1548,6 +1725,19 @@ func runC07(c c07Case) *pbt.Verdict {
 				govNotPassed++
 				return
 			}
+			onPassed()
+		}
+		return flush(int(ch.Cfg.GovVoting/time.Second) + 1)
+	}
+
+	// runDenoms installs new restake AllowedDenoms.
+	runDenoms := func(set int) bool {
+		if set < 0 {
+			set = -set
+		}
+		names := c07DenomSets[set%len(c07DenomSets)]
+		msg := restaketypes.NewMsgUpdateParams(sim.GovAuthority(), restaketypes.NewParams(append([]string{}, names...)))
+		return runGov(msg, func() {
 			was := append([]bool(nil), m.allowed...)
 			for j, dn := range c07Denoms {
 				m.allowed[j] = false
@@ -1574,8 +1764,84 @@ func runC07(c c07Case) *pbt.Verdict {
 					excused[i] = true
 				}
 			}
+		})
+	}
+
+	// runFeedsParams changes one x/feeds parameter.
+	runFeedsParams := func(o c07Op) bool {
+		next := *cur
+		val := o.PV
+		switch o.Par {
+		case "maxfeeds":
+			if o.PRel {
+				val += int64(cur.MaxFeeds)
+			}
+			if val < 0 {
+				val = 0
+			}
+			if val > 8 {
+				val = 8
+			}
+			next.MaxFeeds = int(val)
+		case "thr":
+			if o.PRel {
+				val += cur.Thr
+			}
+			if val < 1 {
+				val = 1
+			}
+			next.Thr = val
+		case "minint":
+			if val < 1 {
+				val = 1
+			}
+			next.MinI = val
+		case "maxint":
+			if val < 1 {
+				val = 1
+			}
+			next.MaxI = val
+		case "updint":
+			if val < 1 {
+				val = 1
+			}
+			if val > 8 {
+				val = 8
+			}
+			next.UpdInt = int(val)
+		default:
+			inapplicable++
+			return true
 		}
-		return flush(int(ch.Cfg.GovVoting/time.Second) + 1)
+		np := fpChain
+		np.PowerStepThreshold, np.MinInterval, np.MaxInterval = next.Thr, next.MinI, next.MaxI
+		np.MaxCurrentFeeds, np.CurrentFeedsUpdateInterval = uint64(next.MaxFeeds), int64(next.UpdInt)
+		return runGov(&feedstypes.MsgUpdateParams{Authority: sim.GovAuthority(), Params: np}, func() {
+			if next != *cur {
+				feedsParamsChanged++
+			}
+			if next.MaxFeeds < cur.MaxFeeds {
+				eligible := 0
+				for _, t := range m.totals() {
+					if t.Cmp(bi(next.Thr)) >= 0 {
+						eligible++
+					}
+				}
+				if next.MaxFeeds < eligible {
+					maxFeedsLoweredBelowEligible++
+				}
+			}
+			if next.MaxFeeds > cur.MaxFeeds {
+				maxFeedsRaised++
+			}
+			if next.Thr != cur.Thr {
+				thresholdChanged++
+			}
+			if next.UpdInt != cur.UpdInt {
+				updIntChanged++
+			}
+			*cur, fpChain = next, np
+		})
 	}
 
 	// runReimport: the state is exported with the application's own genesis export, a NEW application instance is
@@ -1638,6 +1904,12 @@ func runC07(c c07Case) *pbt.Verdict {
 			}
 			continue
 		}
+		if o.Kind == "fparams" {
+			if !runFeedsParams(o) {
+				return v
+			}
+			continue
+		}
 		if o.Kind == "reimport" {
 			if !runReimport() {
 				return v
@@ -1647,7 +1919,7 @@ func runC07(c c07Case) *pbt.Verdict {
 		addTx(o)
 	}
 	// tail: commit what is pending and run across one full update interval
-	for i := 0; i <= c.UpdateInterval; i++ {
+	for i := 0; i <= cur.UpdInt; i++ {
 		if !flush(1) {
 			return v
 		}
@@ -1684,6 +1956,17 @@ func runC07(c c07Case) *pbt.Verdict {
 	cls(withdrawRej, "withdraw-below-lock-rejected")
 	cls(revoteSame, "revote-same-total")
 	cls(withdrawAfterSame, "withdraw-after-same-total-revote")
+	cls(hugeLockObs, "lock>=2^63")
+	cls(withdrawRejHugeLock, "withdraw-below-lock-rejected-with-lock>=2^63")
+	cls(feedsParamsChanged, "feeds-params-changed")
+	cls(maxFeeds0AtUpdate, "max-current-feeds-0-at-update-block")
+	cls(maxFeeds0AtUpdateWithEligible, "max-current-feeds-0-at-update-block-with-eligible-signals")
+	cls(maxFeedsLoweredBelowEligible, "max-current-feeds-lowered-below-eligible-count")
+	cls(maxFeedsRaised, "max-current-feeds-raised")
+	cls(thresholdChanged, "power-threshold-changed")
+	cls(updIntChanged, "update-interval-changed")
+	cls(voteRefusedOverCurrentMax, "vote-refused-more-signals-than-current-max")
+	cls(voteAcceptedAfterParams, "vote-accepted-after-feeds-params-change")
 	cls(reimports, "genesis-reimport")
 	cls(reimportWithVote, "genesis-reimport-with-standing-vote")
 	cls(reimportBelowLock, "genesis-reimport-while-power-below-lock")
@@ -1722,6 +2005,11 @@ func runC07(c c07Case) *pbt.Verdict {
 	v.Count("withdraw_below_lock_rejected", int64(withdrawRej))
 	v.Count("revote_same_total", int64(revoteSame))
 	v.Count("withdraw_after_same_total_revote", int64(withdrawAfterSame))
+	v.Count("feeds_params_changed", int64(feedsParamsChanged))
+	v.Count("update_blocks_with_max_current_feeds_0", int64(maxFeeds0AtUpdate))
+	v.Count("update_blocks_with_max_current_feeds_0_and_eligible_signals", int64(maxFeeds0AtUpdateWithEligible))
+	v.Count("max_current_feeds_lowered_below_eligible_count", int64(maxFeedsLoweredBelowEligible))
+	v.Count("votes_refused_more_signals_than_current_max", int64(voteRefusedOverCurrentMax))
 	v.Count("genesis_reimports", int64(reimports))
 	v.Count("genesis_reimports_with_standing_vote", int64(reimportWithVote))
 	v.Count("genesis_reimports_while_power_below_lock", int64(reimportBelowLock))
